@@ -24,6 +24,7 @@
  *   VSHIM_CRASH_GEN=n, VSHIM_FAULT_GEN=n  (optional) the crash/fault spec applies only to processes that are n fork()s
  *                             away from their last exec (0 = the exec'd program itself, 1 = its not-exec'd fork child, ...);
  *                             needed because counters restart at 0 in a fork child that keeps the parent's key
+ *   VSHIM_EUID=n              geteuid() answers n (getuid() keeps answering the faked real uid)
  *   VSHIM_CLOCK=path          8-byte offset added to time()
  *   VSHIM_DRIVE=prog, VSHIM_CTL=sockpath  driven select() for program `prog`
  *   VSHIM_GATE=sockpath       gate mode: queue-relevant calls ask a scheduler first
@@ -751,7 +752,8 @@ struct group *getgrnam(const char *name)
 }
 
 uid_t getuid(void) { REAL(getuid); init(); if (cred_set) return cred_uid; return real_getuid(); }
-uid_t geteuid(void) { REAL(geteuid); init(); if (cred_set) return cred_uid; return real_geteuid(); }
+/* VSHIM_EUID: an effective uid that differs from the (faked) real one - a caller that dropped privileges with seteuid() only */
+uid_t geteuid(void) { REAL(geteuid); const char *s; init(); if ((s = getenv("VSHIM_EUID"))) return (uid_t)atol(s); if (cred_set) return cred_uid; return real_geteuid(); }
 gid_t getgid(void) { REAL(getgid); init(); if (cred_set) return cred_gid; return real_getgid(); }
 gid_t getegid(void) { REAL(getegid); init(); if (cred_set) return cred_gid; return real_getegid(); }
 
